@@ -244,7 +244,16 @@ def _ok_or(ctx, a, ty, c):
 
 @summary(r"^Option::<.*>::(is_some|is_none)$|^Result::<.*>::(is_ok|is_err)$")
 def _is_some(ctx, a, ty, c):
-    v, name = enum_variant(ctx, ctx.as_agg(load(ctx, a[0])))
+    r = a[0]
+    cell, path = None, None
+    while isinstance(r, Ref):
+        cell, path = r.cell, r.path
+        r = ctx.read(cell, path)
+    if isinstance(r, Lazy):
+        r = ctx.as_agg(r)
+        if cell is not None:
+            ctx.write(cell, path, r)
+    v, name = enum_variant(ctx, r)
     which = c.rsplit("::", 1)[1]
     return Bool({"is_some": name == "Some", "is_none": name == "None", "is_ok": name == "Ok", "is_err": name == "Err"}[which])
 
